@@ -6,6 +6,7 @@ All statements are for arbitrary list lengths (= arbitrary tensor shapes, flatte
 arbitrary `XVal` contents (finite, `±inf`, `nan`) of the masked cells.
 -/
 import LeaspyVerif.Lemmas.Masked
+import LeaspyVerif.Lemmas.Taint
 
 namespace LeaspyVerif.C06
 open LeaspyVerif.Masked
@@ -609,5 +610,176 @@ example :
         (.sumDim [0, 0] 1 (.reweight eModelxModel eYxModel))
       = eval ⟨[.wt [(.fin (1/2), true), (.nan, false)], .plain [.fin (1/2), .fin (3/4)]], fun _ x => x⟩
         (.sumDim [0, 0] 1 (.reweight eModelxModel eYxModel)) := by decide +kernel
+
+/-! ### 9. Recorded programs: positional taint analysis (`Model/Taint.lean`)
+
+The sections above are about a hand-written model of the weighted tensors.  This one is about the torch program that the
+real code executed on this run, from the `Dataset` tensors to the quantities the property names: it is translated to a
+gather program (every output element lists the input elements it is computed from) and the abstract interpretation
+`Taint.taint` marks every element `known` / `clean` / `dirty`.  `taint_sound`: an element that is not `dirty` has the same
+value in any two runs that agree outside the garbage positions — for EVERY interpretation of the scalar operations (so for
+IEEE arithmetic: nothing is assumed about `0 * nan`), every content of the garbage positions, every value of the clean
+inputs.  What stays outside Lean: that the gather program is the computation the code performs (the translation
+`Taint.toGather` is validated on every run against the real tensors and against `Trace.fnApply`), and the amount of padding
+(one recorded program has one shape; see `padding_content_irrelevant_partial`). -/
+
+section Recorded
+open LeaspyVerif.Trace LeaspyVerif.Taint
+variable {α : Type}
+
+/-- `taint_sound` — joint form: the inputs of the two runs and their abstract description are given together, element by
+    element (`Good`: a `known v` element is `v` in both runs, a `clean` one is equal in both).  Every element of every node
+    that the analysis does not mark `dirty` is then equal in the two runs. -/
+theorem taint_sound (O : Ops α) (nodes : List (GNode α)) (J : Nat → List (Joint α)) (hJ : ∀ k, ∀ t ∈ J k, Good t)
+    (o q : Nat) (a : AVal α) (ha : cell (taint O (fun k => (J k).map p3) nodes) o q = some a) (hc : a ≠ .dirty) :
+    cell (evalC O (fun k => (J k).map p1) nodes) o q = cell (evalC O (fun k => (J k).map p2) nodes) o q := by
+  have e3 := evalG_map p3 (eltJ O) (eltA O) cstJ AVal.known (fun _ _ => rfl) (fun _ => rfl) J nodes
+  have e1 := evalG_map p1 (eltJ O) (elt O) cstJ id (fun _ _ => rfl) (fun _ => rfl) J nodes
+  have e2 := evalG_map p2 (eltJ O) (elt O) cstJ id (fun _ _ => rfl) (fun _ => rfl) J nodes
+  have hall : AllCells Good (evalG (eltJ O) cstJ J nodes) :=
+    runG_all Good (eltJ O) cstJ (eltJ_good O) (fun v => ⟨rfl, rfl⟩) J hJ nodes [] (by intro l hl; cases hl)
+  unfold taint at ha
+  unfold evalC
+  rw [← e3, cell_map] at ha
+  rw [← e1, ← e2, cell_map, cell_map]
+  cases ht : cell (evalG (eltJ O) cstJ J nodes) o q with
+  | none => simp [ht] at ha
+  | some t =>
+    simp only [ht, Option.map_some, Option.some.injEq] at ha
+    have hgood : Good t := by
+      unfold cell at ht
+      cases hl : (evalG (eltJ O) cstJ J nodes)[o]? with
+      | none => simp [hl] at ht
+      | some l =>
+        simp only [hl, Option.bind_some] at ht
+        exact hall l (List.mem_of_getElem? hl) t (List.mem_of_getElem? ht)
+    obtain ⟨t1, t2, t3⟩ := t
+    simp only [p3] at ha
+    subst ha
+    simp only [Option.map_some, p1, p2]
+    cases t3 with
+    | known v => obtain ⟨h1, h2⟩ := hgood; simp_all
+    | clean => simp only [Good] at hgood; simp_all
+    | dirty => exact absurd rfl hc
+
+private theorem joint_of_agree (garbage : List Bool) (x x' : List α) (h : AgreeOutside garbage x x') :
+    ∃ J : List (Joint α), J.map p1 = x ∧ J.map p2 = x' ∧ J.map p3 = absInput false garbage x ∧ ∀ t ∈ J, Good t := by
+  induction h with
+  | nil => exact ⟨[], rfl, rfl, rfl, by simp⟩
+  | cons g a b gs as bs hab _ ih =>
+    obtain ⟨J, h1, h2, h3, h4⟩ := ih
+    refine ⟨(a, b, if g then .dirty else .clean) :: J, by simp [p1, h1], by simp [p2, h2], ?_, ?_⟩
+    · simp only [absInput, Bool.false_eq_true, if_false] at h3 ⊢
+      simp [p3, h3]
+    · intro t ht
+      rcases List.mem_cons.mp ht with rfl | ht
+      · cases g with
+        | true => simp [Good]
+        | false => simp [Good, hab rfl]
+      · exact h4 t ht
+
+private theorem joint_of_known (x : List α) :
+    ∃ J : List (Joint α), J.map p1 = x ∧ J.map p2 = x ∧ J.map p3 = absInput true [] x ∧ ∀ t ∈ J, Good t := by
+  refine ⟨x.map cstJ, by simp [Function.comp_def, p1, cstJ], by simp [Function.comp_def, p2, cstJ],
+    by simp [absInput, Function.comp_def, p3, cstJ], ?_⟩
+  intro t ht
+  obtain ⟨v, _, rfl⟩ := List.mem_map.mp ht
+  exact ⟨rfl, rfl⟩
+
+/-- `taint_sound_masked` — the property's own premise: `known` inputs (the mask) are identical in the two runs; in every
+    other input the two runs agree at every position that is not garbage, and hold ANYTHING (finite, huge, `nan`, `±inf`)
+    at the garbage positions.  Every element the analysis does not mark `dirty` is equal in the two runs. -/
+theorem taint_sound_masked (O : Ops α) (nodes : List (GNode α)) (isKnown : Nat → Bool) (garbage : Nat → List Bool)
+    (x x' : Nat → List α) (hk : ∀ k, isKnown k = true → x k = x' k)
+    (hg : ∀ k, isKnown k = false → AgreeOutside (garbage k) (x k) (x' k))
+    (o q : Nat) (a : AVal α)
+    (ha : cell (taint O (fun k => absInput (isKnown k) (garbage k) (x k)) nodes) o q = some a) (hc : a ≠ .dirty) :
+    cell (evalC O x nodes) o q = cell (evalC O x' nodes) o q := by
+  have hex : ∀ k, ∃ J : List (Joint α), J.map p1 = x k ∧ J.map p2 = x' k ∧
+      J.map p3 = absInput (isKnown k) (garbage k) (x k) ∧ ∀ t ∈ J, Good t := by
+    intro k
+    cases hkk : isKnown k with
+    | true =>
+      obtain ⟨J, h1, h2, h3, h4⟩ := joint_of_known (x k)
+      exact ⟨J, h1, by rw [h2, hk k hkk], by simpa [absInput] using h3, h4⟩
+    | false => exact joint_of_agree _ _ _ (hg k hkk)
+  let J : Nat → List (Joint α) := fun k => Classical.choose (hex k)
+  have hJ := fun k => Classical.choose_spec (hex k)
+  have e1 : (fun k => (J k).map p1) = x := funext fun k => (hJ k).1
+  have e2 : (fun k => (J k).map p2) = x' := funext fun k => (hJ k).2.1
+  have e3 : (fun k => (J k).map p3) = fun k => absInput (isKnown k) (garbage k) (x k) := funext fun k => (hJ k).2.2.1
+  have := taint_sound O nodes J (fun k => (hJ k).2.2.2) o q a (by rw [e3]; exact ha) hc
+  rwa [e1, e2] at this
+
+/-- Padding.  Full statement (not provable about ONE recorded program, whose shapes are fixed): *the outputs restricted to the
+    real visits do not depend on the number of padded visits.*  What is proved here is the part that concerns a fixed
+    amount of padding: with the padded cells among the garbage positions, whatever they hold — also the zeros the loader
+    writes versus the values of a longer individual, `nan`, `±inf` — no clean output element changes.  (The amount of
+    padding is covered by `padding_irrelevant` above for the expression language, and by runs on re-padded datasets.) -/
+theorem padding_content_irrelevant_partial (O : Ops α) (nodes : List (GNode α)) (isKnown : Nat → Bool)
+    (padded : Nat → List Bool) (x x' : Nat → List α) (hk : ∀ k, isKnown k = true → x k = x' k)
+    (hg : ∀ k, isKnown k = false → AgreeOutside (padded k) (x k) (x' k)) (o : Nat) (flags : List (AVal α))
+    (hf : (taint O (fun k => absInput (isKnown k) (padded k) (x k)) nodes)[o]? = some flags)
+    (hclean : ∀ a ∈ flags, a ≠ .dirty) (q : Nat) :
+    cell (evalC O x nodes) o q = cell (evalC O x' nodes) o q ∨ q ≥ flags.length := by
+  by_cases hq : q < flags.length
+  · left
+    have hcell : cell (taint O (fun k => absInput (isKnown k) (padded k) (x k)) nodes) o q = some flags[q] := by
+      simp [cell, hf, List.getElem?_eq_getElem hq]
+    exact taint_sound_masked O nodes isKnown padded x x' hk hg o q _ hcell (hclean _ (List.getElem_mem hq))
+  · right; omega
+
+end Recorded
+
+/-! ### non-vacuity and counterexamples on recorded-like programs (`toGather`, IEEE-like `XVal` scalars) -/
+
+section RecordedExamples
+open LeaspyVerif.Trace LeaspyVerif.Taint
+
+/-- `wsum` as coded: `(w * y.masked_fill(w == 0, 0)).sum(dim=1)`; input 0 = values `y (2,2)`, input 1 = mask `w` -/
+def exFilledSum : List (TNode XVal) :=
+  [.ind 0 [2, 2], .ind 1 [2, 2], .op (.const ⟨[], #[.fin 0]⟩) [] [], .op (.ew .eq) [1, 2] [2, 2],
+   .op (.ew .where_) [3, 2, 0] [2, 2], .op (.ew .mul) [1, 4] [2, 2], .op (.red .sum [1] false) [5] [2]]
+
+/-- the fast path without the fill: `(w * y).sum(dim=1)` -/
+def exUnfilledSum : List (TNode XVal) :=
+  [.ind 0 [2, 2], .ind 1 [2, 2], .op (.ew .mul) [1, 0] [2, 2], .op (.red .sum [1] false) [2] [2]]
+
+/-- a plain sum over the (padded) visit axis: `y.sum(dim=1)` -/
+def exPlainSum : List (TNode XVal) := [.ind 0 [2, 2], .op (.red .sum [1] false) [0] [2]]
+
+/-- inputs of the examples: values `[[a, g], [2, 3]]` (cell (0,1) masked: it holds `g`), mask `[[1, 0], [1, 1]]` -/
+def exIn (g : XVal) : Nat → List XVal := fun k =>
+  if k = indBase then [.fin 1, g, .fin 2, .fin 3] else if k = indBase + 1 then [.fin 1, .fin 0, .fin 1, .fin 1] else []
+
+def exAbs : Nat → List (AVal XVal) := fun k =>
+  absInput (k == indBase + 1) [false, true, false, false] (exIn (.fin 0) k)
+
+/-- The coded weighted sum is clean at every output element, and indeed gives `1` and `5` whether the masked cell holds
+    `0`, `nan` or `+inf`. -/
+theorem exFilledSum_clean :
+    (taint xvalOps exAbs (toGather exFilledSum).1)[6]? = some [.clean, .clean] ∧
+    (evalC xvalOps (exIn (.fin 0)) (toGather exFilledSum).1)[6]? = some [.fin 1, .fin 5] ∧
+    (evalC xvalOps (exIn .nan) (toGather exFilledSum).1)[6]? = some [.fin 1, .fin 5] ∧
+    (evalC xvalOps (exIn .pinf) (toGather exFilledSum).1)[6]? = some [.fin 1, .fin 5] := by
+  decide +kernel
+
+/-- Multiplying garbage by a zero weight without filling first is rejected, and rightly so: a finite fill goes unnoticed,
+    `nan` (or `inf`: `0 * inf = nan`) under the mask makes the sum `nan`. -/
+theorem unfilled_weighted_sum_counterexample :
+    (taint xvalOps exAbs (toGather exUnfilledSum).1)[3]? = some [.dirty, .clean] ∧
+    (evalC xvalOps (exIn (.fin 7)) (toGather exUnfilledSum).1)[3]? = some [.fin 1, .fin 5] ∧
+    (evalC xvalOps (exIn .nan) (toGather exUnfilledSum).1)[3]? = some [.nan, .fin 5] ∧
+    (evalC xvalOps (exIn .pinf) (toGather exUnfilledSum).1)[3]? = some [.nan, .fin 5] := by
+  decide +kernel
+
+/-- An unmasked sum over a padded axis is rejected: it returns whatever the padding holds. -/
+theorem unmasked_sum_counterexample :
+    (taint xvalOps exAbs (toGather exPlainSum).1)[1]? = some [.dirty, .clean] ∧
+    (evalC xvalOps (exIn (.fin 0)) (toGather exPlainSum).1)[1]? = some [.fin 1, .fin 5] ∧
+    (evalC xvalOps (exIn (.fin 7)) (toGather exPlainSum).1)[1]? = some [.fin 8, .fin 5] := by
+  decide +kernel
+
+end RecordedExamples
 
 end LeaspyVerif.C06
